@@ -19,6 +19,7 @@ from hugr.ops import (
     Const,
     Custom,
     DataflowBlock,
+    DataflowOp,
     ExitBlock,
     FuncDecl,
     FuncDefn,
@@ -54,12 +55,31 @@ class ModelExport:
             self.link_names[root] = index
             return index
 
+    def _num_ports(self, node: Node) -> tuple[int, int]:
+        """The number of input and output ports a node has in the model: the
+        value ports of its signature (static and order ports are not ports of
+        the model), or the control flow ports of a basic block.
+        """
+        match self.hugr[node].op:
+            case Call() as op:
+                return len(op.instantiation.input), len(op.instantiation.output)
+            case DataflowBlock() as op:
+                return 1, len(op.sum_ty.variant_rows)
+            case ExitBlock():
+                return 1, 0
+            case DataflowOp() as op:
+                sig = op.outer_signature()
+                return len(sig.input), len(sig.output)
+            case _:
+                return 0, 0
+
     def export_node(self, node: Node) -> model.Node | None:
         """Export the node with the given node id."""
         node_data = self.hugr[node]
 
-        inputs = [self.link_name(InPort(node, i)) for i in range(node_data._num_inps)]
-        outputs = [self.link_name(OutPort(node, i)) for i in range(node_data._num_outs)]
+        num_inps, num_outs = self._num_ports(node)
+        inputs = [self.link_name(InPort(node, i)) for i in range(num_inps)]
+        outputs = [self.link_name(OutPort(node, i)) for i in range(num_outs)]
         meta = []
 
         # Export JSON metadata
@@ -401,15 +421,13 @@ class ModelExport:
                 case Input() as op:
                     source_types = model.List([type.to_model() for type in op.types])
                     sources = [
-                        self.link_name(OutPort(child, i))
-                        for i in range(child_data._num_outs)
+                        self.link_name(OutPort(child, i)) for i in range(len(op.types))
                     ]
 
                 case Output() as op:
                     target_types = model.List([type.to_model() for type in op.types])
                     targets = [
-                        self.link_name(InPort(child, i))
-                        for i in range(child_data._num_inps)
+                        self.link_name(InPort(child, i)) for i in range(len(op.types))
                     ]
 
                 case _:
@@ -458,10 +476,7 @@ class ModelExport:
                     target_types = model.List(
                         [type.to_model() for type in op.cfg_outputs]
                     )
-                    targets = [
-                        self.link_name(InPort(child, i))
-                        for i in range(child_data._num_inps)
-                    ]
+                    targets = [self.link_name(InPort(child, 0))]
                 case DataflowBlock() as op:
                     if source is None:
                         source_types = model.List(
